@@ -309,6 +309,142 @@ def do_partitions(c):
     return out
 
 
+# ----------------------------------------------------------------------------- round 2: Python-side wrappers
+
+def _obs(fn):
+    try:
+        r = fn()
+        return {"kind": "none"} if r is None else {"kind": "found", "path": os.fsencode(r).hex()}
+    except Exception as e:  # noqa: BLE001
+        return exc_obs(e)
+
+
+def do_rootfs(c):
+    """RootFsDeviceFinder over a scripted /proc/partitions + /sys tree (files under SCRATCH; open_text / glob.iglob /
+    os.path.exists of _pslinux redirected for the duration of the call; major/minor set on the instance)."""
+    from unittest import mock
+    import shutil
+    root = os.path.join(SCRATCH, "rootfs")
+    shutil.rmtree(root, ignore_errors=True)
+    proc = os.path.join(root, "proc")
+    sysd = os.path.join(root, "sys")
+    os.makedirs(proc)
+    os.makedirs(os.path.join(sysd, "dev", "block"))
+    os.makedirs(os.path.join(sysd, "class", "block"))
+    if c["partitions"] is not None:
+        with open(os.path.join(proc, "partitions"), "wb") as f:
+            f.write(bytes.fromhex(c["partitions"]))
+    for a, b, text in c["uevents"]:
+        d = os.path.join(sysd, "dev", "block", "%d:%d" % (a, b))
+        os.makedirs(d, exist_ok=True)
+        with open(os.path.join(d, "uevent"), "wb") as f:
+            f.write(bytes.fromhex(text))
+    listed = []
+    for name, content in c["classdevs"]:
+        d = os.path.join(sysd, "class", "block", os.fsdecode(bytes.fromhex(name)))
+        os.makedirs(d, exist_ok=True)
+        if content is not None:
+            with open(os.path.join(d, "dev"), "wb") as f:
+                f.write(bytes.fromhex(content))
+        listed.append(os.path.join(d, "dev"))
+    exists = {os.fsdecode(bytes.fromhex(x)) for x in c["exists"]}
+    real_open_text = _pslinux.open_text
+    real_exists = os.path.exists
+
+    def fake_open_text(path):
+        if path.startswith("/sys/"):
+            path = sysd + path[4:]
+        return real_open_text(path)
+
+    def fake_iglob(pattern, *a, **k):
+        assert pattern == "/sys/class/block/*/dev", pattern
+        return iter(listed)
+
+    def fake_exists(p):
+        if isinstance(p, str) and p.startswith("/dev/"):
+            return p in exists
+        return real_exists(p)
+    out = {}
+    psutil.PROCFS_PATH = proc
+    try:
+        with mock.patch.object(_pslinux, "open_text", fake_open_text), mock.patch.object(_pslinux.glob, "iglob", fake_iglob), \
+                mock.patch.object(_pslinux.os.path, "exists", fake_exists):
+            fd = _pslinux.RootFsDeviceFinder.__new__(_pslinux.RootFsDeviceFinder)
+            fd.major, fd.minor = int(c["major"]), int(c["minor"])
+            out["strategies"] = [_obs(fd.ask_proc_partitions), _obs(fd.ask_sys_dev_block), _obs(fd.ask_sys_class_block)]
+            out["find"] = _obs(fd.find)
+    finally:
+        psutil.PROCFS_PATH = "/proc"
+    real = _pslinux.RootFsDeviceFinder()
+    st = os.stat("/").st_dev
+    out["init_ok"] = (real.major, real.minor) == (os.major(st), os.minor(st))
+    return out
+
+
+def do_netifstats(c):
+    """psutil.net_if_stats() over a scripted /proc/net/dev (names) and scripted ioctl answers per NIC (shim2)."""
+    root = os.path.join(SCRATCH, "nisproc")
+    os.makedirs(os.path.join(root, "net"), exist_ok=True)
+    lines = ["Inter-|   Receive                                                |  Transmit",
+             " face |bytes    packets errs drop fifo frame compressed multicast|bytes    packets errs drop fifo colls carrier compressed"]
+    for n in c["nics"]:
+        lines.append("%6s: %s" % (os.fsdecode(bytes.fromhex(n["name"])), " ".join(["0"] * 16)))
+    with open(os.path.join(root, "net", "dev"), "wb") as f:
+        f.write(os.fsencode("\n".join(lines) + "\n"))
+    script = ["0 0 0 0 0 0 0"]
+    for n in c["nics"]:
+        for code, key in (("M", "mtu"), ("F", "flags"), ("E", "eth")):
+            a = n[key]
+            if "err" in a:
+                script.append("%s %s -1 %d 0 0 0 0 0" % (n["name"], code, a["err"]))
+            elif key == "mtu":
+                script.append("%s %s 0 0 %d 0 0 0 0" % (n["name"], code, a["ok"]))
+            elif key == "flags":
+                script.append("%s %s 0 0 0 %d 0 0 0" % (n["name"], code, a["ok"]))
+            else:
+                script.append("%s %s 0 0 0 0 %d %d %d" % (n["name"], code, a["ok"][2], a["ok"][1], a["ok"][0]))
+    _script("ioctl.txt", "\n".join(script) + "\n")
+    _unscript("ioctl.out")
+    psutil.PROCFS_PATH = root
+    try:
+        if c.get("errno") is not None:
+            poison_errno(c["errno"])
+        st = psutil.net_if_stats()
+        out = {"kind": "ok", "rows": [[os.fsencode(k).hex(), bool(v.isup), int(v.duplex), v.speed, v.mtu, os.fsencode(v.flags).hex()]
+                                      for k, v in st.items()],
+               "types": sorted({type(v).__name__ for v in st.values()})}
+    except Exception as e:  # noqa: BLE001
+        out = exc_obs(e)
+        if isinstance(e, OSError) and e.errno is not None:
+            out["errno_num"] = e.errno
+        if isinstance(e, KeyError):
+            out["key"] = e.args[0] if e.args and isinstance(e.args[0], int) else None
+    finally:
+        psutil.PROCFS_PATH = "/proc"
+        _unscript("ioctl.txt")
+        _unscript("ioctl.out")
+    return out
+
+
+def do_netifaddrs_front(c):
+    """psutil.net_if_addrs() (the front end of psutil/__init__.py) over a scripted getifaddrs() list."""
+    lines = []
+    for e in c["entries"]:
+        lines.append("%s %d %s %s %s" % (e["name"] or "00", e["flags"], e["addr"] or "-", e["netmask"] or "-", e["ifu"] or "-"))
+    _script("ifaddrs.txt", "\n".join(lines) + "\n")
+    try:
+        d = psutil.net_if_addrs()
+        out = {"kind": "ok", "dict": [[sval(k), [[int(a.family), sval(a.address), sval(a.netmask), sval(a.broadcast), sval(a.ptp)] for a in v]]
+                                      for k, v in d.items()],
+               "types": sorted({type(a).__name__ for v in d.values() for a in v}),
+               "famtypes": sorted({type(a.family).__name__ for v in d.values() for a in v})}
+    except Exception as e:  # noqa: BLE001
+        out = exc_obs(e)
+    finally:
+        _unscript("ifaddrs.txt")
+    return out
+
+
 def raw_ioprio(pid):
     try:
         return list(cext.proc_ioprio_get(pid))
@@ -410,7 +546,8 @@ def do_entrypoints(c):
 
 HANDLERS = {"users": do_users, "partitions": do_partitions, "call": do_call, "ionice": do_ionice,
             "netif": do_netif, "ifaddrs": do_ifaddrs, "ifr": do_ifr, "sysinfo": do_sysinfo, "getprio": do_getprio,
-            "entrypoints": do_entrypoints, "ping": lambda c: {"pong": os.getpid()}}
+            "entrypoints": do_entrypoints, "rootfs": do_rootfs, "netifstats": do_netifstats,
+            "netifaddrs_front": do_netifaddrs_front, "ping": lambda c: {"pong": os.getpid()}}
 
 
 def main():
